@@ -389,7 +389,10 @@ func hasOpaque(x *sx) bool {
 }
 
 // instantiatedQuery builds the quantifier-free, goal-directed query.
-func (c *Ctx) instantiatedQuery(goalNeg string, extra []string) (string, bool) {
+func (c *Ctx) instantiatedQuery(goalNeg string, extra []string, nAsserts int) (string, bool) {
+	if nAsserts <= 0 || nAsserts > len(c.asserts) {
+		nAsserts = len(c.asserts)
+	}
 	ic := &instCtx{c: c, skolems: map[string][]string{}}
 	gs := parseSx(goalNeg)
 	if len(gs) != 1 {
@@ -400,7 +403,13 @@ func (c *Ctx) instantiatedQuery(goalNeg string, extra []string) (string, bool) {
 	ground := map[string]bool{}
 	groundIndexTerms(goal, map[string]bool{}, ground)
 	var parsed []*sx
-	for _, a := range append(append([]string{}, c.asserts...), extra...) {
+	var quantFacts []string
+	for _, a := range c.litFacts {
+		if hasQuant(a) {
+			quantFacts = append(quantFacts, a)
+		}
+	}
+	for _, a := range append(append(append([]string{}, c.asserts[:nAsserts]...), extra...), quantFacts...) {
 		ps := parseSx(a)
 		if len(ps) != 1 {
 			return "", false
@@ -558,6 +567,9 @@ func (c *Ctx) instantiatedQuery(goalNeg string, extra []string) (string, bool) {
 		b.WriteString(d + "\n")
 	}
 	for _, a := range c.litFacts {
+		if hasQuant(a) {
+			continue // instantiated above
+		}
 		b.WriteString("(assert " + a + ")\n")
 	}
 	for _, a := range c.finalAxioms() {
